@@ -31,8 +31,7 @@ GeomOK(e) ==
             ELSE Frac(w.curv) = FMul(Frac(e.base.curv), w.sheets)       \* cover: curvature times sheets
                  /\ w.sym.n = w.sheets * e.base.sym.n
 Next == /\ l <= Len(Rec)
-        /\ "panic" \notin DOMAIN Rec[l] /\ "panic" \notin DOMAIN Rec[l].base
-        /\ GeomOK(Rec[l])
+        /\ ("panic" \notin DOMAIN Rec[l] /\ "panic" \notin DOMAIN Rec[l].base /\ GeomOK(Rec[l])) = TRUE
         /\ l' = l + 1
 Spec == Init /\ [][Next]_l
 Accepted == LET d == TLCGet("stats").diameter IN
